@@ -65,6 +65,18 @@ CHECKS = {
         "ref": "DESIGN.md §3.7, §3.8, §4 C10",
         "note": "Trusted: as C04. In 'error' mode an unseen level anywhere in the evaluated matrix must raise ValueError. Integer-valued data.",
     },
+    "C03": {
+        "technique": "TLA+ spec (Contrasts.tla: atom theory = Abs; transcription of pick_contrast / _get_encoding_groups / add_extra_terms / Model.eval = Impl) model checked with TLC over every ordered family of terms; every family replayed into design_matrices on complete-factorial data and decided by exact integer rank computations; recorded pick_contrasts calls judged by TLC against the spec action",
+        "text": "TLC enumerates every ordered family of <= 3 terms (<= 3 factors each) over {f,g,h,x} with and without intercept (4760), families with swapped factor orders over {f,g,h,x,z}, and (thorough) all families over four categorical factors, and proves that the modelled algorithm covers every required atom exactly once (the same model with the repairs switched off yields the pinned tree's counterexamples). Each exported family is built by the real code on replicated complete-factorial data with random level counts 2..4, as plain variables and as C/T/S/scale/center/bs/poly atoms with random factor order, and checked with exact ranks: rank(X) = ncol(X) = sum over atoms of prod(levels-1)*widths and rank([X B]) = rank(B) for the full-indicator basis B built from the family. Recorded pick_contrasts calls of random builds must equal the spec action PickGroup (drift only).",
+        "ref": "DESIGN.md §3.5, §4 C03",
+        "note": "Trusted: TLC, fv/rank.py (mod-p elimination with two primes, exact Bareiss on disagreement), numpy SVD with a gap test for float atoms (unclear gaps are counted, not judged), the data generator (replication >= 2 + 3 x numeric width, distinct numeric values). Families are sets of terms.",
+    },
+    "C05": {
+        "technique": "TLA+ spec: Design.tla (block structure, slot order, cell meaning of e|g[l] labels) and Contrasts.tla (atom theory applied to the effect-side family of each grouping factor) model checked with TLC; small-scope replay, recorded builds judged by TLC, effect families decided by exact ranks",
+        "text": "Cell-level: Design_MC group formulas replayed exactly; random builds with group terms (intercept, numeric, categorical, call and interaction effects; single, interaction, sum and C() grouping expressions; the same effect under two factors) judged by TLC: every cell equals the effect value on the rows of its group and 0 elsewhere, group slots in level order with the effect fastest, labels = columns. Coding: every ordered family of <= 2 effect terms over {f,h,x} with and without '0 +', for grouping expressions g, g:k, C(g), on replicated fully crossed data: the columns of the grouping factor must have full rank and span indicator(g) (x) full effect coding (exact integer ranks).",
+        "ref": "DESIGN.md §3.5, §3.7, §4 C05",
+        "note": "Trusted: as C03/C04. Open finding KF_C05_effect_coding: families on which the code's simplified rule (spec predicate SimpleRuleExact) is not an exact cover.",
+    },
 }
 
 NOT_YET = "check not built yet (work in progress; see DESIGN.md §9 build order)"
